@@ -20,6 +20,10 @@ type Knobs struct {
 	// SplitAt > 0: the rule set is built from two resources (rules[:SplitAt], rules[SplitAt:]) by two
 	// BuildRuleFromResource calls instead of one.
 	SplitAt int `json:"split_at,omitempty"`
+	// RefetchFrom (fetch mode only): the SAME data context object is first used for an unjudged
+	// FetchMatchingRules on these other fact values, then the facts are changed in place by the caller's
+	// own Go code to the scenario's facts, and the judged call follows.
+	RefetchFrom *grl.Facts `json:"refetch_from,omitempty"`
 }
 
 // Fault is one injected fault, positioned by the event number of the run.
